@@ -45,6 +45,8 @@ func init() {
 		"vrt_ConnStart":    stubNop,
 		"vrt_ConnWritten":  vrtConnWritten,
 		"vrt_ConnFailWrites": vrtConnFailWrites,
+		"vrt_ConnLive":       func(ex *Exec, fn *ssa.Function, args []Value) []Value { connOf(ex, args[0]).live = true; return nil },
+		"vrt_ConnEOF":        func(ex *Exec, fn *ssa.Function, args []Value) []Value { connOf(ex, args[0]).eof = true; return nil },
 		"vrt_IsOpaque":  vrtIsOpaque,
 		"vrt_Fail":      vrtFail,
 		"vrt_ClockFrozen": func(ex *Exec, fn *ssa.Function, args []Value) []Value { ex.clockFrozen = true; return nil },
@@ -311,6 +313,8 @@ type connScript struct {
 	writes []SliceV
 	closed bool
 	failWrites bool
+	live   bool // Read blocks when the script is exhausted (until more data, EOF or Close)
+	eof    bool
 }
 
 // vrt_NewTCPConn() *net.TCPConn : a connection object whose Read/Write/Close are scripted.
@@ -336,6 +340,9 @@ func connOf(ex *Exec, v Value) *connScript {
 func stubTCPRead(ex *Exec, fn *ssa.Function, args []Value) []Value {
 	cs := connOf(ex, args[0])
 	buf := args[1].(SliceV)
+	if cs.live {
+		ex.blockUntil(func() bool { return cs.closed || cs.eof || cs.pos < len(cs.reads) })
+	}
 	if cs.closed {
 		return []Value{ex.cint(0), ex.globalErr("net.ErrClosed")}
 	}
